@@ -292,6 +292,7 @@ def parseEv (toks : List String) : Option Ev :=
   | ["out", "ret", tid] => tid.toNat?.map (fun t => .output (.callRet t))
   | ["out", "craise", tid] => tid.toNat?.map (fun t => .output (.closeRaised t))
   | ["out", "clock", tid] => tid.toNat?.map (fun t => .output (.logged t))
+  | ["out", "enq", tid] => tid.toNat?.map (fun t => .output (.enqueued t))
   | "snap" :: es =>
     (es.mapM (fun (e : String) => match e.splitOn ":" with
       | ["S", h] => (Hex.strOfHex h).map LogEntry.send
